@@ -63,6 +63,14 @@ func (p *Parser) parseJournal() *ast.Journal {
 					journal.Directives = append(journal.Directives, dir)
 				}
 			}
+		case TokenIndent:
+			// a line holding only blanks is an empty line, not an entry
+			indent := p.current
+			p.advance()
+			if p.current.Type != TokenNewline && p.current.Type != TokenEOF {
+				p.errorAt(indent.Pos, "unexpected token: %s", indent.Type)
+				p.skipToNextLine()
+			}
 		default:
 			p.error("unexpected token: %s", p.current.Type)
 			p.skipToNextLine()
